@@ -61,7 +61,7 @@ def generate(ctx, counts):
 
     def one(fam):
         n = counts.get(fam, 0)
-        sim = vlib.tlc_sim(ctx, "LavaChain", "LavaChain_sim_%s.cfg" % fam, num=n, depth=62, timeout=1800,
+        sim = vlib.tlc_sim(ctx, "LavaChain", "LavaChain_sim_%s.cfg" % fam, num=n, depth=62, timeout=3600,
                            tag="LavaChain_sim_" + fam, seed=ctx.seed + ALL_FAMILIES.index(fam))
         behs = [b for b in sim["behaviours"] if len(b) >= 5][:n]
         if not behs:
@@ -247,7 +247,10 @@ def directed_common():
 
     def relay(p, cu):
         return {"a": "RelayPay", "cons": "C1", "spec": "S1", "prov": p, "cu": cu}
-    h = [{"a": "IprpcSetData", "cons": "C1", "amt": 100},
+    # "Setup nopools": the driver empties the reward pools before the history starts, so the monthly refill burns next to
+    # nothing and a value-creating slip in the monthly distributions is not masked by the burn of the same block
+    h = [{"a": "Setup", "mode": "nopools"},
+         {"a": "IprpcSetData", "cons": "C1", "amt": 100},
          {"a": "SubBuy", "creator": "C1", "cons": "C1", "plan": "PL1", "months": 12, "auto": False}, ne,
          {"a": "DsDelegate", "del": "D1", "prov": "P1", "val": "VA1", "amt": 2000},
          {"a": "IprpcFund", "who": "C2", "spec": "S1", "months": 3, "amt": 1100},
